@@ -507,3 +507,24 @@ func tokRawOK(prevStart, prevEnd, n int, baseOffset int64, num uint64) bool {
 //@ at call e.NeedFlush#0 assert committed-len: len(e.Buf) >= old(len(e.Buf))
 //@ at call e.NeedFlush#0 assert committed-prefix: vForall(0, old(len(e.Buf)), func(j int) bool { return e.Buf[j] == old(e.Buf[j]) })
 //@ at call e.NeedFlush#0 assert step: e.Tokens.Last == old(e.Tokens.Last)+1 && len(e.Tokens.Stack) == old(len(e.Tokens.Stack))
+
+// ---------------------------------------------------------------- unwrite
+
+//@ func (*encodeBuffer).unflushedBuffer
+//@ inline
+
+// UnwriteEmptyObjectMember: either nothing changes and false is returned, or the
+// buffer is cut back to a prefix of itself (nothing is rewritten), the member's
+// two elements are taken off the count with the other bits of the state entry
+// unchanged, and true is returned. It never reads or writes outside the buffer.
+//
+//@ func (*encoderState).UnwriteEmptyObjectMember
+//@ split
+//@ property C07 C20
+//@ requires e != nil && e.Tokens.Last.isObject() && e.Tokens.Last.NeedObjectName() && e.Tokens.Last.Length() != 0 && len(e.Buf) >= 6
+//@ requires names: len(e.Names.offsets) > 0 && (!e.Flags.Get(jsonflags.AllowDuplicateNames) ==> len(e.Namespaces) > 0) && distinctArrays(e.Names.unquotedNames, e.Buf)
+//@ requires prevName != nil ==> nsLocalOK(e.Names.offsets, e.Names.unquotedNames) && vForall(0, len(e.Names.offsets)-1, func(i int) bool { return e.Names.offsets[i] >= 0 })
+//@ modifies everything
+//@ ensures kept: !result ==> sameSlice(e.Buf, old(e.Buf)) && e.Tokens.Last == old(e.Tokens.Last)
+//@ ensures cut: result ==> len(e.Buf) < old(len(e.Buf)) && sameSlice(e.Buf, old(e.Buf)[:len(e.Buf)]) && seCount(e.Tokens.Last) == seCount(old(e.Tokens.Last))-2 && seObj(e.Tokens.Last) && seDisabled(e.Tokens.Last) == seDisabled(old(e.Tokens.Last)) && seInvalid(e.Tokens.Last) == seInvalid(old(e.Tokens.Last))
+//@ ensures depth: len(e.Tokens.Stack) == old(len(e.Tokens.Stack)) && len(e.Names.offsets) == old(len(e.Names.offsets))
